@@ -322,6 +322,34 @@ func init() {
 	reg("(*sync.WaitGroup).Add (*sync.WaitGroup).Done (*sync.WaitGroup).Wait", func(c *Ctx, fn *ssa.Function, a []Value) Value {
 		return nil
 	})
+	// sync.Pool: a LIFO free list per pool (single goroutine); Get on an empty pool calls New
+	reg("(*sync.Pool).Get", func(c *Ctx, fn *ssa.Function, a []Value) Value {
+		p := a[0].(PtrV)
+		k := "pool:" + p.key()
+		if items, _ := c.extra[k].([]Value); len(items) > 0 {
+			c.extra[k] = items[:len(items)-1]
+			return items[len(items)-1]
+		}
+		// field New func() any
+		if st, ok := under(c.typeOfPtr(p)).(*types.Struct); ok {
+			for i := 0; i < st.NumFields(); i++ {
+				if st.Field(i).Name() == "New" {
+					nf := c.load(PtrV{obj: p.obj, path: append(append([]int{}, p.path...), i)})
+					if cl, ok := nf.(*ClosureV); ok && cl != nil {
+						return c.callValue(cl, nil, nil)
+					}
+				}
+			}
+		}
+		return IfaceV{}
+	})
+	reg("(*sync.Pool).Put", func(c *Ctx, fn *ssa.Function, a []Value) Value {
+		p := a[0].(PtrV)
+		k := "pool:" + p.key()
+		items, _ := c.extra[k].([]Value)
+		c.extra[k] = append(items, a[1])
+		return nil
+	})
 	// ---- sync/atomic (free functions over plain cells) ----
 	atomicLoad := func(c *Ctx, fn *ssa.Function, a []Value) Value { return c.load(a[0].(PtrV)) }
 	atomicStore := func(c *Ctx, fn *ssa.Function, a []Value) Value { c.store(a[0].(PtrV), a[1]); return nil }
